@@ -66,7 +66,9 @@ def run_check(tier, seed):
         write_if_changed(os.path.join(COQ, 'Gen/RustDispatch.v'), server_dispatch.emit_coq(server_dispatch.translate(REPO)))
     except rust_abi.TranslateError as ex:
         broken.append({'kind': 'translator', 'item': 'translator/server_dispatch.py', 'error': str(ex)})
+    import pure_tie; pure_tie.prepare(PROP, ev, broken)      # Gen/RustPure.v from the function bodies in REPO (PROP_src_* theorems)
     audit = std_audit(ev, PROP, broken)
+    pure_tie.after_audit(PROP, broken)                         # a source tie broke: look for a concrete differing input
     ok, out, bindir = cargo_build(['codec'])
     if not ok:
         broken.append({'kind': 'harness-build', 'log': out[-3000:]})
@@ -78,6 +80,8 @@ def run_check(tier, seed):
     cases += [c for c in S.gen_virtio_seg_cases(rng, len(cases) + 200000)]
     cases += S.gen_direrr_cases(rng, len(cases) + 300000)
     cases += S.gen_errkind_cases(rng, len(cases) + 400000)
+    cases += S.gen_errkind_ext_cases(rng, len(cases) + 500000)      # audit6: every other stable ErrorKind
+    cases += S.gen_readerr_cases(rng, len(cases) + 600000)          # audit6: READ fails after pushing data
     # directory sweep: every requested size within 8 bytes of every entry boundary (padded and unpadded), plain and plus
     sweep = []
     for op in (28, 44):
